@@ -3,7 +3,7 @@ malformed encodings are rejected."""
 import random
 import common as C
 import gen as G
-import codec
+import codec, prune, wrap
 
 MODEL_TARGETS = ["model/De.vo", "spec/Denote.vo", "spec/Encoding.vo"]
 COQ_TARGETS = ["props/C03.vo"]
@@ -15,6 +15,7 @@ TRUSTED_BASE = [
     "spec/{AvroValue,Encoding,Denote}.v written from the Avro specification (values, conformance, every legal block layout, expected callbacks); extracted as the oracle",
     "hand-written model/De.v, Reader.v, Varint.v of de/deserializer/**, de/read/mod.rs and integer-encoding 4.1.0, tied by the correspondence run (events, consumed bytes, Ok/Err) over valid and malformed inputs and random targets",
     "extraction (ExtrOcamlBasic) + ocaml/driver.ml; Rust harness (recording visitors)",
+    "partly ignoring targets (lib/prune.py, Python): the expected value is the specification's typed value (Denote.dval_typed) from which the fields the target lacks are deleted and the parts it takes as IgnoredAny / unit variant are replaced by `ignored` / `unit` -- a projection that only removes sub-terms; the model De.v is run on the same target and compared as well",
 ]
 ASSUMPTIONS = [
     "C03_complete needs lengths/counts/indices below 2^63 (they are written as longs): counts_fit and the length bound; the unbounded statement is refuted (C03_unbounded_refuted)",
@@ -87,11 +88,38 @@ def run(ctx):
         extra = G.rand_bytes(rng, rng.randint(1, 5))
         lines.append("de %s any %s slice" % (s["schema"], C.hx(enc + extra)))
         meta.append(("valid-followed", "(ok %s %d)" % (s["dany"], len(extra)), s))
+        # the same encoding through serde's IgnoredAny (the deserialize_ignored_any fast paths: no UTF-8 check, no decimal
+        # parsing, jumps over byte-size prefixed blocks): at the root, alone and followed by other data -- exactly the
+        # encoding is consumed
+        lines.append("de %s ignored %s %s" % (s["schema"], s["enc"], rng.choice(["slice", "(chunks 1)", "(chunks %d)" % rng.randint(2, 9)])))
+        meta.append(("valid-ignored", "(ok ignored 0)", s))
+        lines.append("de %s ignored %s %s" % (s["schema"], C.hx(enc + extra), rng.choice(["slice", "slice", "(chunks %d)" % rng.randint(1, 9)])))
+        meta.append(("valid-ignored-followed", "(ok ignored %d)" % len(extra), s))
+        # ... and below the root: the typed target with record fields it does not know, parts taken as IgnoredAny, union
+        # branches taken as unit variants; every part that IS read must be the specification's value
+        pr = prune.pruned(rng, s["ttarget"], s["dtyped"])
+        if pr is not None:
+            lines.append("de %s %s %s %s" % (s["schema"], pr[0], s["enc"], rng.choice(["slice", "slice", "(chunks 1)", "(chunks %d)" % rng.randint(2, 40)])))
+            meta.append(("valid-partly-ignored", "(ok %s 0)" % pr[1], s))
         # every strict prefix of a valid encoding is not an encoding: premature end
         if enc:
             k = rng.randrange(len(enc))
             lines.append("de %s any %s %s" % (s["schema"], C.hx(enc[:k]), rng.choice(["slice", "(chunks 3)"])))
             meta.append(("truncated", "err", s))
+    # every kind of leaf, ignored in every way a target can ignore it (unknown record field, IgnoredAny field, array items,
+    # map values, union branch as a unit variant), followed by a field that is read
+    dcases = []
+    for label, nodes in G.leaf_kind_schemas():
+        vg = G.ValueGen(rng, nodes)
+        for _ in range(2 if ctx["tier"] == "quick" else 12):
+            v = vg.gen(0)
+            if v is None:
+                continue
+            for w, e, t, exp, kind in wrap.ignoring_forms(rng, nodes, v, vg, G.rand_int(rng, -2**63, 2**63 - 1)):
+                dcases.append((w, e, t, exp, "ignored-leaf-%s" % kind, label))
+    for (w, e, t, exp, kind, label), s in zip(dcases, codec.spec_batch([(w, e) for w, e, *_ in dcases])):
+        lines.append("de %s %s %s %s" % (s["schema"], t, s["enc"], rng.choice(["slice", "slice", "(chunks 1)", "(chunks %d)" % rng.randint(2, 9)])))
+        meta.append((kind, "(ok %s 0)" % exp, s))
     for nodes, b, why in targeted(rng):
         for mode in ("slice", "(chunks 1)"):
             lines.append("de %s %s %s %s" % (G.schema_sx(nodes), rng.choice(["any", "any", "str", "i64"]) if "UTF" not in why else rng.choice(["any", "str", "string"]), C.hx(b), mode))
@@ -116,7 +144,10 @@ def run(ctx):
     return {"evaluations": len(lines), "distinct_nontrivial": len(distinct),
             "rule": "valid encodings produced by the extracted specification encoder: random schemas/values with random block layouts, ALL block "
                     "layouts (compositions x sign patterns) of arrays of 0..4 items, decoded under the dynamic and the typed target, followed by "
-                    "trailing data; strict prefixes (premature end) and targeted malformations (boolean bytes 2..255, 12 ill-formed UTF-8 "
+                    "trailing data; the same encodings through serde's IgnoredAny at the root (alone and followed by data: exactly the encoding "
+                    "is consumed) and through the typed target with fields left out / parts ignored / union branches as unit variants (expected: "
+                    "the specification's typed value with exactly those parts removed); every leaf kind (primitives, every logical type over "
+                    "each base, fixed and decimal-over-fixed sizes, enums) ignored in every position followed by a field that is read; strict prefixes (premature end) and targeted malformations (boolean bytes 2..255, 12 ill-formed UTF-8 "
                     "sequences in strings/keys/uuids, union and enum indices outside the schema incl. negative and huge, negative lengths, "
                     "over-long varints, oversized decimals) must be rejected; model vs crate on everything",
             "samples": samples, "violations": violations, "model_diffs": diffs, "distribution": dict(dist), "exhaustive": False}
